@@ -31,10 +31,76 @@ def run(ck, model_ok):
             got = [int(x) for x in out[j][1]] if out[j][0] == 'ok' else out[j]
             if got != want:
                 ck.fail('tie', 'content-error-files', {'sizes': case[0], 'piece': case[1], 'L': case[2]}, repr(got), repr(want), 'model and VerifyContentError name different files')
+    object_histories(ck)
     ck.notes += ['SHA-1 collisions are not considered; content on disk is fixed during a run']
 
 
+def object_histories(ck):
+    """verify() on ONE Torrent object before and after its recorded hashes are replaced (same piece count): the outcome must
+    follow the hashes the torrent records NOW (oracle only, real threads)."""
+    import hashlib
+    import os
+    import torf
+    import streamlib as sl
+    from common import Scratch
+    rng = ck.rng
+    L = 16384
+    with Scratch() as root:
+        for hi in range(12 if ck.tier == 'quick' else 300):
+            sizes = tuple(rng.choice([1, 100, L - 1, L, L + 1, 2 * L + 5, 40000]) for _ in range(rng.choice([1, 2, 3])))
+            single = len(sizes) == 1 and rng.random() < 0.5
+            contents = sl.gen_content(sizes)
+            d = os.path.join(root, 'o%d' % hi)
+            os.makedirs(d)
+            cp = sl.write_tree(d, contents, single=single)
+            stream = b''.join(contents)
+            hashes = [hashlib.sha1(stream[i:i + L]).digest() for i in range(0, len(stream), L)]
+            t = sl.make_torrent(sizes, L, single=single, hashes=hashes)
+            how = rng.choice(['assign', 'assign', 'reuse'])
+            threads = rng.choice([1, 2, 4])
+            case = {'object-history': True, 'sizes': list(sizes), 'single': single, 'how': how, 'threads': threads}
+            ck.case(('object-history', sizes, single, how, threads))
+
+            def verify():
+                try:
+                    return ('ret', t.verify(cp, threads=threads))
+                except torf.TorfError as e:
+                    return ('raise', type(e).__name__)
+                except Exception as e:  # noqa
+                    return ('internal', type(e).__name__)
+            r1 = verify()
+            # the content changes in one byte and the torrent gets the hashes of the changed content
+            fi = rng.randrange(len(sizes))
+            pos = rng.randrange(sizes[fi])
+            changed = list(contents)
+            changed[fi] = contents[fi][:pos] + bytes([contents[fi][pos] ^ 0x5a]) + contents[fi][pos + 1:]
+            fpath = cp if single else os.path.join(cp, *sl.relpath_of(fi))
+            open(fpath, 'wb').write(changed[fi])
+            stream2 = b''.join(changed)
+            hashes2 = [hashlib.sha1(stream2[i:i + L]).digest() for i in range(0, len(stream2), L)]
+            if how == 'assign':
+                t.metainfo['info']['pieces'] = b''.join(hashes2)
+            else:
+                t2 = sl.make_torrent(sizes, L, single=single, hashes=hashes2)
+                tf = os.path.join(d, 'new.torrent')
+                t2.write(tf)
+                t._path = __import__('pathlib').Path(cp)
+                try:
+                    t.reuse(tf)
+                except Exception:  # noqa
+                    t.metainfo['info']['pieces'] = b''.join(hashes2)
+            r2 = verify()
+            open(fpath, 'wb').write(contents[fi])          # back to the old content: no longer what the torrent records
+            r3 = verify()
+            if r1 != ('ret', True) or r2 != ('ret', True) or r3[0] != 'raise' or r3[1] not in ('VerifyContentError',):
+                ck.fail('oracle', 'object-history:verify-follows-stale-hashes', case, "True, True, VerifyContentError", repr((r1, r2, r3)),
+                        'verify() on an object whose recorded hashes were replaced does not follow the hashes it records now')
+
+
+
 def replay(rp):
+    if rp['case'].get('object-history'):
+        return False, 're-run ./check C02 with the same seed (object histories are regenerated from the seed)'
     rec, verdicts = pc.replay_case(rp['case'])
     bad = [v for v in verdicts if v[0] == 'C02']
     return not bad, repr(bad)[:600]
